@@ -21,6 +21,18 @@ CHECKS = {
             "TLA+ model (DispatcherOps.tla) model-checked by TLC + trace validation of real-code schedules (deterministic scheduler) by TLC"),
 }
 
+EXP = "exploration"
+_chan_note = "trusted: TLC (judging), the simulated kernel and scheduler shims (Lock/Condition/select/poll/pipe semantics), the independent response lexer wv/httpclient.py; schedule coverage on the code is bounded (all schedules with <= 1 pre-emption up to a limit, sampled beyond)"
+_chan_tech = "deterministic schedule exploration of the real server (bounded DFS + PCT/pre-emption sampling) with TLC trace validation against the TLA+ property monitor Pipeline.tla"
+for _pid, _what, _ref in (
+        ("C04", "pipelining scenarios (1..3 requests, bodies, Expect, Connection: close, lookahead 0..2, 1..2 workers, partial-send patterns); clauses P04_*: executed in arrival order exactly once, one at a time, wire = concatenation of the responses in order, nothing duplicated/stray/cut", "DESIGN.md 6 (C04)"),
+        ("C05", "the poll timeout taken as infinite (the select/poll shim blocks until a descriptor is ready), select and poll, response sizes around send_bytes/watermark/SO_SNDBUF, slow readers; clauses P05_*: at quiescence nothing is undelivered, unserviced, half-closed or waiting", "DESIGN.md 6 (C05)"),
+        ("C11", "close-race scenarios (closing message x follower complete/partial/garbage x same/later read x lookahead 0,1,2(,5)), send faults; clauses P11_*: no application start after a close decision or after a closing response", "DESIGN.md 6 (C11)"),
+        ("C12", "one producing worker vs. the draining I/O thread with small watermarks incl. 0 and 1, write sizes around the mark, partial drains, stall, disconnect; clauses P12_*: pending output <= watermark + one write, paused producer released; plus wire integrity", "DESIGN.md 6 (C12)"),
+        ("C13", "one injected errno per scenario on send/recv/accept and on getsockopt/setsockopt/setblocking of a just-accepted socket, x schedules, with a healthy second connection; clauses P13_*: torn down once and only by the I/O thread, listener/trigger/loop/workers survive, other connection completes, buffers released", "DESIGN.md 6 (C13)"),
+        ("C19", "pipelines mixing expecting and plain requests with waiting clients, head/body segmentation, lookahead 0..2; clauses P19_*: at most one interim, only for an expecting HTTP/1.1 request, placed between the neighbouring responses, waiting client never left waiting, request executed once with only its own fields", "DESIGN.md 6 (C19)")):
+    CHECKS[_pid] = (EXP, "The real server (I/O loop, trigger, workers, channel) runs on a simulated kernel under a deterministic scheduler with a pre-emption point at every lock/condition/socket/pipe/select operation and every access to a shared channel attribute; scenarios: " + _what + ". Every recorded execution is judged by TLC against the observable-event monitor specification (spec/Pipeline.tla), which names the violated clause. Level is exploration until the implementation-shaped Channel.tla model is bound (then model_checking).", _ref, _chan_note, _chan_tech)
+
 NA_REASON = "check not built yet (work in progress; see DESIGN.md section 6 for the planned TLA+ specification)"
 
 
